@@ -91,7 +91,8 @@ def cases(draw):
     # exotic reference values (names v0.. are never read by formulas)
     for j in range(draw(st.integers(0, 4))):
         where = draw(st.sampled_from([[]] + [list(s.path) for s in spaces]))
-        extra.append(["set_ref", where, "v%d" % j, ["py", draw(st.sampled_from(PY_VALUES))], None])
+        mode = draw(st.sampled_from([None, None, "auto", "absolute"])) if where else None
+        extra.append(["set_ref", where, "v%d" % j, ["py", draw(st.sampled_from(PY_VALUES))], mode])
     # data with an IOSpec (written to its own file)
     for j in range(draw(st.integers(0, 2)) if draw(st.booleans()) else 0):
         where = draw(st.sampled_from([[]] + [list(s.path) for s in spaces]))
